@@ -225,7 +225,7 @@ TWIN_FAMILIES = {
     "qm": ["qm_a", "qm_b", "qm_c"],
     "fields": ["fields"],
     "lossless": ["lossless", "lossless_10bit"],
-    "ld": ["ld", "ld_pb"],
+    "ld": ["ld", "ld_pb", "ld_irregular"],
     "frag": ["frag", "frag2"],
     "names": ["tw 4:4:4", "tw 4_4_4", "tw 4.4.4"],
     "basefmt": ["w176", "after_w176"],
